@@ -15,6 +15,10 @@ type Op struct {
 	Addr uint64     `json:"addr,omitempty"`
 	W    int        `json:"w,omitempty"`
 	V    int        `json:"v,omitempty"`    // index into Vals
+	// FromLoad > 0: store the expression returned by the FromLoad-th
+	// successful load of this run instead of Vals[V] (values that came out
+	// of the memory go back in)
+	FromLoad int `json:"from_load,omitempty"`
 	Key  string     `json:"key,omitempty"`  // register / memory key
 	AddrX *refeval.J `json:"addrx,omitempty"` // apply_mem: address expression
 }
